@@ -130,3 +130,72 @@ func H_C12_particulate_nutrient() {
 		vsym.Assert(down.Get1(0) == 0 && inst2 == 0, "flush-below-minimum-volume-zeroes")
 	}
 }
+
+// H_C12_lumped_two: TWO steps in one call ("over any period"; also: nothing but the stored mass is
+// carried from one step to the next): total in + stored = total out + stored', no flush step.
+//vsym:prop=C12 tier=quick ints=int floats=real timeout=60
+func H_C12_lumped_two() {
+	in, lat, outQ, vol := rtOut(2), rtOut(2), rtOut(2), rtOut(2)
+	sumIn := 0.0
+	stored, point, dt := c12nn("stored"), c12nn("pointInput"), vsym.Float64("dt")
+	vsym.Assume(dt > 0)
+	for t := 0; t < 2; t++ {
+		a, b, q, v := c12nn("inLoad"), c12nn("latLoad"), c12nn("outflow"), c12nn("volume")
+		in.Set1(t, a)
+		lat.Set1(t, b)
+		outQ.Set1(t, q)
+		vol.Set1(t, v)
+		vsym.Assume(q*dt+v >= MINIMUM_VOLUME)
+		sumIn += (a + b + point) * dt
+	}
+	outL, ps := rtOut(2), rtOut(2)
+	stored2 := LumpedConstituentTransport(in, lat, outQ, vol, stored, 0, point, dt, outL, ps)
+	vsym.Reach("run")
+	vsym.Assert(outL.Get1(0) >= 0 && outL.Get1(1) >= 0 && stored2 >= 0, "loads-and-store-nonnegative")
+	vsym.AssertNear(sumIn+stored, (outL.Get1(0)+outL.Get1(1))*dt+stored2, c12Abs, c12Rel, "mass-balance-closes-over-two-steps")
+}
+
+// H_C12_decay_two: ConstituentDecay over two steps in one call.
+//vsym:prop=C12 tier=quick ints=int floats=real timeout=60
+func H_C12_decay_two() {
+	in, lat, inQ, outQ, vol := rtOut(2), rtOut(2), rtOut(2), rtOut(2), rtOut(2)
+	sumIn := 0.0
+	stored, hl, dt := c12nn("stored"), vsym.Float64("halflife"), vsym.Float64("dt")
+	vsym.Assume(dt > 0)
+	for t := 0; t < 2; t++ {
+		a, b, qi, q, v := c12nn("inLoad"), c12nn("latLoad"), c12nn("inflow"), c12nn("outflow"), c12nn("volume")
+		in.Set1(t, a)
+		lat.Set1(t, b)
+		inQ.Set1(t, qi)
+		outQ.Set1(t, q)
+		vol.Set1(t, v)
+		vsym.Assume(q*dt+v >= 0.01)
+		sumIn += (a + b) * dt
+	}
+	dec, outL := rtOut(2), rtOut(2)
+	stored2 := constituentDecay(in, lat, inQ, outQ, vol, stored, 0, hl, dt, dec, outL)
+	vsym.Reach("run")
+	vsym.Assert(outL.Get1(1) >= 0 && stored2 >= 0 && dec.Get1(1) >= 0, "loads-and-store-nonnegative")
+	vsym.AssertNear(sumIn+stored, (outL.Get1(0)+outL.Get1(1)+dec.Get1(0)+dec.Get1(1))*dt+stored2, c12Abs, c12Rel, "mass-balance-closes-over-two-steps")
+}
+
+// H_C12_coarse_two: InstreamCoarseSediment over two steps in one call.
+//vsym:prop=C12 tier=quick ints=int floats=real timeout=60
+func H_C12_coarse_two() {
+	up, lat, loc := rtOut(2), rtOut(2), rtOut(2)
+	sumIn := 0.0
+	ch, stored, dt := c12nn("channelStore"), c12nn("stored"), vsym.Float64("dt")
+	vsym.Assume(dt > 0)
+	for t := 0; t < 2; t++ {
+		a, b, c := c12nn("up"), c12nn("lat"), c12nn("local")
+		up.Set1(t, a)
+		lat.Set1(t, b)
+		loc.Set1(t, c)
+		sumIn += (a + b + c) * dt
+	}
+	down := rtOut(2)
+	ch2, stored2 := instreamCoarseSediment(up, lat, loc, ch, stored, dt, down)
+	vsym.Reach("run")
+	vsym.AssertNear(sumIn+stored+ch, (down.Get1(0)+down.Get1(1))*dt+stored2+ch2, c12Abs, c12Rel, "mass-balance-closes-over-two-steps")
+	vsym.Assert(down.Get1(1) >= 0 && stored2 >= 0 && ch2 >= 0, "loads-and-store-nonnegative")
+}
